@@ -252,14 +252,14 @@ def judge_links(kind, m, msg, opts):
         return None
     d = diff_message(m, msg.subsets, check_links=True)
     if d:
-        return 'decoded %s differ from the FM-94 bitmap rule at subset %s field %s: observed %r expected %r' % (d[1], d[0], d[2], jsonable(d[3]), jsonable(d[4]))
+        return ('decoded-%s-differ' % d[1], 'decoded %s differ from the FM-94 bitmap rule at subset %s field %s: observed %r expected %r' % (d[1], d[0], d[2], jsonable(d[3]), jsonable(d[4])))
     if opts.get('wire_template_data', True):
         try:
             from pybufrkit.renderer import NestedJsonRenderer
             nj = NestedJsonRenderer().render(m)
             nodes_all = json.loads(json.dumps(nj[-2][-1]['value'], default=lambda b: b.decode('latin-1')))
         except Exception as e:
-            return 'nested rendering raised %s' % type(e).__name__
+            return ('nested-rendering-raises:%s' % type(e).__name__, 'nested rendering raised %s' % type(e).__name__)
         td = m.template_data.value
         for k, nodes in enumerate(nodes_all):
             if k >= len(msg.subsets):
@@ -272,7 +272,7 @@ def judge_links(kind, m, msg, opts):
             except Exception:
                 continue
             if bad and bad[0].startswith('nested/attribute-owner'):
-                return 'attributes under other owners in the nested view of subset %d: %s' % (k, bad[1][:200])
+                return ('attribute-under-wrong-owner', 'attributes under other owners in the nested view of subset %d: %s' % (k, bad[1][:200]))
     return None
 
 
